@@ -400,39 +400,70 @@ theorem len_nonneg (l : Loc) (hwf : geneWF l = true) : 0 ≤ l.len := by
   rw [len_eq_bases_length l (fun p hp => Int.le_of_lt (hparts p hp).1)]
   omega
 
+/-- a section (sub-location) of a gene: non-empty parts, all non-empty, all on the gene's strand -/
+def SectionOK (st : Strand) (r : Loc) : Prop :=
+  r.parts ≠ [] ∧ ∀ q ∈ r.parts, q.lo < q.hi ∧ q.strand = st
+
+theorem subLocation_section (l : Loc) (hwf : geneWF l = true) (s e : Nat) (hse : s < e)
+    (he : (e : Int) ≤ l.len / 3) :
+    ∃ r, subLocation l s e = .ok r ∧ bases r = sliceL (bases l) (3 * s) (3 * e) ∧ SectionOK l.strand r := by
+  obtain ⟨r, hr, hb, hi⟩ := subLocation_slice l hwf s e hse he
+  obtain ⟨_, hparts⟩ := (geneWF_iff l).mp hwf
+  have hlen := len_eq_bases_length l (fun p hp => Int.le_of_lt (hparts p hp).1)
+  refine ⟨r, hr, hb, ?_, ?_⟩
+  · intro h0
+    have : (bases r).length = 3 * e - 3 * s := by rw [hb, sliceL_length _ _ _ (by omega)]
+    simp [bases, h0] at this
+    omega
+  · intro q hq
+    obtain ⟨p, hp, _, h2, _, h4⟩ := hi q hq
+    exact ⟨h2, by rw [h4, (hparts p hp).2]⟩
+
 theorem prepeptide_sections (l : Loc) (hwf : geneWF l = true) (ld tl : Nat)
     (h : (ld : Int) + tl < l.len / 3) :
     ∃ a c b, prepeptideSections l ld tl = .ok (a, c, b) ∧
       (a = none ↔ ld = 0) ∧ (b = none ↔ tl = 0) ∧
       optBases a = sliceL (bases l) 0 (3 * ld) ∧
       bases c = sliceL (bases l) (3 * ld) (3 * ((l.len / 3).toNat - tl)) ∧
-      optBases b = sliceL (bases l) (3 * ((l.len / 3).toNat - tl)) (3 * (l.len / 3).toNat) := by
+      optBases b = sliceL (bases l) (3 * ((l.len / 3).toNat - tl)) (3 * (l.len / 3).toNat) ∧
+      (∀ r, (a = some r ∨ c = r ∨ b = some r) → SectionOK l.strand r) := by
   have hpos := len_nonneg l hwf
   generalize hT : (l.len / 3).toNat = T
   have hTi : l.len / 3 = (T : Int) := by omega
   have e1 : (T : Int) - (tl : Int) = ((T - tl : Nat) : Int) := by omega
-  obtain ⟨c, hc, hcb, _⟩ := subLocation_slice l hwf ld (T - tl) (by omega) (by omega)
+  obtain ⟨c, hc, hcb, hcok⟩ := subLocation_section l hwf ld (T - tl) (by omega) (by omega)
   -- leader
   have hlead : ∃ a, (if (ld : Int) ≠ 0 then (subLocation l 0 ld).bind fun r => Res.ok (some r) else Res.ok none)
-      = .ok a ∧ (a = none ↔ ld = 0) ∧ optBases a = sliceL (bases l) 0 (3 * ld) := by
+      = .ok a ∧ (a = none ↔ ld = 0) ∧ optBases a = sliceL (bases l) 0 (3 * ld) ∧
+        (∀ r, a = some r → SectionOK l.strand r) := by
     by_cases h0 : ld = 0
-    · subst h0; exact ⟨none, by simp, by simp, by simp [optBases, sliceL]⟩
-    · obtain ⟨a, ha, hab, _⟩ := subLocation_slice l hwf 0 ld (by omega) (by omega)
+    · subst h0; exact ⟨none, by simp, by simp, by simp [optBases, sliceL], by simp⟩
+    · obtain ⟨a, ha, hab, haok⟩ := subLocation_section l hwf 0 ld (by omega) (by omega)
       have ha' : subLocation l 0 (ld : Int) = .ok a := by simpa using ha
-      refine ⟨some a, ?_, by simp [h0], by simpa [optBases] using hab⟩
+      refine ⟨some a, ?_, by simp [h0], by simpa [optBases] using hab, fun r hr => by cases hr; exact haok⟩
       have : (ld : Int) ≠ 0 := by omega
       simp only [this, ne_eq, not_false_eq_true, if_true, ha', Res.bind]
-  obtain ⟨a, ha, ha0, hab⟩ := hlead
+  obtain ⟨a, ha, ha0, hab, haok⟩ := hlead
   by_cases ht : tl = 0
-  · refine ⟨a, c, none, ?_, ha0, by simp [ht], hab, hcb, ?_⟩
+  · refine ⟨a, c, none, ?_, ha0, by simp [ht], hab, hcb, ?_, ?_⟩
+    rotate_left 2
+    · rintro r (h | h | h)
+      · exact haok r h
+      · subst h; exact hcok
+      · cases h
     · simp only [prepeptideSections]
       rw [ha, hTi, e1, hc]
       have : ¬ ((tl : Int) ≠ 0) := by omega
       rw [if_neg this]
       simp only [Res.bind]
     · subst ht; simp [optBases, sliceL]
-  · obtain ⟨b, hb, hbb, _⟩ := subLocation_slice l hwf (T - tl) T (by omega) (by omega)
-    refine ⟨a, c, some b, ?_, ha0, by simp [ht], hab, hcb, by simpa [optBases] using hbb⟩
+  · obtain ⟨b, hb, hbb, hbok⟩ := subLocation_section l hwf (T - tl) T (by omega) (by omega)
+    refine ⟨a, c, some b, ?_, ha0, by simp [ht], hab, hcb, by simpa [optBases] using hbb, ?_⟩
+    rotate_left 1
+    · rintro r (h | h | h)
+      · exact haok r h
+      · subst h; exact hcok
+      · cases h; exact hbok
     simp only [prepeptideSections]
     rw [ha, hTi, e1, hc, hb]
     have : (tl : Int) ≠ 0 := by omega
